@@ -4,6 +4,7 @@ import GoSQLXModel.Driver.LintOp
 import GoSQLXModel.Driver.ScanOp
 import GoSQLXModel.Driver.ExtractOp
 import GoSQLXModel.Driver.LexOp
+import GoSQLXModel.Driver.ExprOp
 /-! Dispatch table of the line-protocol driver. Each op parses its payload, runs the executable
     model and prints a canonical one-line answer. -/
 namespace GoSQLXModel.Driver
@@ -17,6 +18,7 @@ def dispatch (op payload : String) : String :=
   | "scan" => scanOp payload
   | "extract" => extractOp payload
   | "lex" => lexOp payload
+  | "expr" => exprOp payload
   | _ => "bad-op"
 
 end GoSQLXModel.Driver
